@@ -206,6 +206,10 @@ func c07(c *q.Ctx) {
 		c.Gate(f, "State.VerifyTx", q.ToCall("State.DoTx"), q.Opt{})
 	}
 
+	// ---- module-wide sweep: no cryptographic verdict is discarded anywhere
+	nv := c.VerdictSweep("VerifyECDSA|VerifyAddressUsingPublicKey|VerifyXuperSignature|utils::VerifySign|utils::IdentifyAK|utils::IdentifyAccount|utils::CheckContractMethodPerm", nil)
+	c.Floor("K1", "module", "cryptographic / ACL verifier call sites", nv, 20)
+
 	// ---- K13: dispatch classes on both block paths
 	exempt := map[string]string{}
 	if f := c.Fn(st + "(*State).procTodoBlkForWalk"); f != nil {
